@@ -110,7 +110,8 @@ def pcount (l : List (Nat × Nat)) (t : Nat) : Nat := (l.filter (·.1 == t)).len
 
 def fail (c d : String) : String := s!"PROP-FAIL class={c} {d}"
 
-def handleCase (env : Env) (ts : Toks) : String :=
+def handleCase (env : Env) (mode : String) (ts : Toks) : String :=
+  let tcp := mode == "tcp"
   match sections ts with
   | [cliT, cfgT, rqT, replyT, cliResT, srvResT, stepsT, c2sT, s2cT] =>
     match clientLine cliT, cfgLine cfgT, steps stepsT, wireList c2sT, wireList s2cT with
@@ -156,7 +157,9 @@ def handleCase (env : Env) (ts : Toks) : String :=
           let rqlen := (c2s.head?.map (·.2)).getD 0
           let replen := (s2c.head?.map (·.2)).getD 0
           let pre : Option String :=
-            if cfg.abstractSyntaxes.isEmpty && !cfg.promiscuous then some "srv-missing-abstract-syntax"
+            -- refusals of `establish` and of its PDU reader, before request processing (sockets only)
+            if !tcp then none
+            else if cfg.abstractSyntaxes.isEmpty && !cfg.promiscuous then some "srv-missing-abstract-syntax"
             else if cfg.maxPdu < MINIMUM_PDU_SIZE then some "srv-invalid-max-pdu"
             else if sl.strict && rqlen > cfg.maxPdu then some "srv-rq-too-large"
             else none
@@ -181,6 +184,9 @@ def handleCase (env : Env) (ts : Toks) : String :=
               let st := (sneg.filter (·.reason == .acceptance)).map fun n => (n.id, n.abstractSyntax, n.transferSyntax)
               if stable && ct ≠ st then
                 some (fail "views-differ" s!"requestor {ct.map (·.1)} acceptor {st.map (·.1)} (ids); first difference {((ct.zip st).find? fun (a, b) => a != b).map fun (a, b) => (hexOfStr a.2.1, hexOfStr b.2.1, hexOfStr a.2.2, hexOfStr b.2.2)}")
+              -- (in-process composition only: a side whose own maximum is below the minimum never gets
+              -- this far over a socket, its PDU reader refuses; 0 then reads as "unlimited" at the peer)
+              else if !(o.maxPdu ≥ MINIMUM_PDU_SIZE && cfg.maxPdu ≥ MINIMUM_PDU_SIZE) then none
               else if cpm ≠ slm ∨ spm ≠ clm then
                 some (fail "max-pdu-views" s!"requestor(local={clm},peer={cpm}) acceptor(local={slm},peer={spm})")
               else
@@ -219,8 +225,8 @@ def handleCase (env : Env) (ts : Toks) : String :=
           else if mSrv ≠ srvResT then s!"MODEL-DIFF acceptor model={" ".intercalate (mSrv.take 30)} impl={" ".intercalate (srvResT.take 30)}"
           else
           let mCli : Except ClientErr ClientView :=
-            if o.maxPdu < MINIMUM_PDU_SIZE then .error .receive
-            else if o.strict && replen > o.maxPdu then .error .receive
+            if tcp && o.maxPdu < MINIMUM_PDU_SIZE then .error .receive
+            else if tcp && o.strict && replen > o.maxPdu then .error .receive
             else match reply with
               | .pdu p => processResp o p proposed
               | .rj _ _ _ => .error .rejected
@@ -256,8 +262,8 @@ def handleCase (env : Env) (ts : Toks) : String :=
               | .error e, .ok _ => s!"cli-{showClientErr e}"
               | .error e, .error _ => s!"rej-{showClientErr e}"
               | .ok _, .error _ => "odd"
-            let sig := s!"{res}-n{nb}-a{ab}-c{sizeClass o.maxPdu}-s{sizeClass cfg.maxPdu}-{sc}{if stable then "" else "-sloppy"}"
-            if res == "both" then s!"ok {sig}" else s!"ok {res}-n{nb}-c{sizeClass o.maxPdu}-s{sizeClass cfg.maxPdu}"
+            let sig := s!"{mode}-{res}-n{nb}-a{ab}-c{sizeClass o.maxPdu}-s{sizeClass cfg.maxPdu}-{sc}{if stable then "" else "-sloppy"}"
+            if res == "both" then s!"ok {sig}" else s!"ok {mode}-{res}-n{nb}-c{sizeClass o.maxPdu}-s{sizeClass cfg.maxPdu}"
         | _, _ =>
           -- a request should have been sent; the acceptor may have been unable to start
           if rqT == ["none"] then s!"MODEL-DIFF no request on the wire; requestor={cliResT}" else "BAD-LINE"
@@ -275,9 +281,10 @@ partial def loop (h out : IO.FS.Stream) (env : Option Env) : IO Unit := do
     match parseReg r with
     | some e => out.putStrLn s!"{id} ok trivial-registry-{e.reg.length}"; loop h out (some e)
     | none => out.putStrLn s!"{id} BAD-LINE"; loop h out env
-  | "assoc" :: r =>
+  | ["skip", _] => out.putStrLn s!"{id} ok trivial-skip"; loop h out env
+  | "assoc" :: mode :: r =>
     match env with
-    | some e => out.putStrLn s!"{id} {handleCase e r}"; loop h out env
+    | some e => out.putStrLn s!"{id} {handleCase e mode r}"; loop h out env
     | none => out.putStrLn s!"{id} BAD-LINE no-registry"; loop h out env
   | _ => out.putStrLn s!"{id} BAD-LINE"; loop h out env
 
